@@ -20,3 +20,17 @@ func ClientPost(c *http.Client, url, contentType string, body io.Reader) (*http.
 	}
 	return &http.Response{StatusCode: int(U64("http.status")), Status: Str("http.statusText"), Body: &StrReader{S: Str("http.respBody")}}, nil
 }
+
+// ClientGet records the URL and answers with an arbitrary status / body, or a transport error.
+//
+//wsym:replace (*net/http.Client).Get
+func ClientGet(c *http.Client, url string) (*http.Response, error) {
+	Log(Ev{K: "http.Get", B: [][]byte{[]byte(url)}})
+	if Bool("http.fails") {
+		return nil, errTransport
+	}
+	return &http.Response{StatusCode: int(U64("http.status")), Status: Str("http.statusText"), Body: &StrReader{S: Str("http.respBody")}}, nil
+}
+
+//wsym:replace io.LimitReader
+func LimitReader(r io.Reader, n int64) io.Reader { return r }
